@@ -151,11 +151,21 @@ def stepRadix (dir : String) (args : List String) (obs : String) : String :=
         match impl with
         | none => "BADOP obs"
         | some impl =>
-          if impl == m then "OK"
-          else match m, impl with
-            | none, some _ => mkVerdict (some "malformed-input-accepted") (some "err")
-            | some m, some _ => mkVerdict (some "wrong-value") (some s!"{m}")
-            | m, _ => mkVerdict none (some s!"{m}")
+          -- the property's reading of "malformed": empty, a character outside the table, or a
+          -- digit that is not below the base.  fq accepts the first and the last (known findings).
+          let div := if impl == m then "" else s!" ;DIVERGE model={m}"
+          let badDigit := cs.any (fun c => match radixVal c with | some d => decide (b ≤ d) | none => false)
+          let outside := cs.any (fun c => (radixVal c).isNone)
+          match impl with
+          | some _ =>
+            if outside then s!"PROPFAIL malformed-input-accepted{div}"
+            else if cs.isEmpty then s!"KNOWN radix-empty-string from_radix of the empty string is a number{div}"
+            else if badDigit then s!"KNOWN radix-digit-not-below-base a digit >= base is accepted{div}"
+            else if impl == m then "OK"
+            else match m with
+              | some mv => mkVerdict (some "wrong-value") (some s!"{mv}")
+              | none => mkVerdict (some "malformed-input-accepted") (some "err")
+          | none => if impl == m then "OK" else mkVerdict none (some s!"{m}")
     | _, _ => "BADOP args"
   | _, _ => "BADOP radix-op"
 
@@ -175,13 +185,13 @@ def showPR (p : PR JV) : String :=
   | .unmodelled => "unmodelled"
 
 open FqModel.Json in
-def stepJson (dir input obs : String) : String :=
+def stepJson (jq : Bool) (dir input obs : String) : String :=
   match dir with
   | "rt" =>
     match unwireAll input with
     | none => "BADOP json-input"
     | some v =>
-      let mText := bytesOfChars (encode v)
+      let mText := bytesOfChars (encode jq v)
       match words obs with
       | ["err"] => mkVerdict (some "tojson-error-in-domain") (some (hx mText))
       | [t, d] =>
@@ -190,7 +200,7 @@ def stepJson (dir input obs : String) : String :=
           let implDec : Option (Option JV) := if d == "err" then some none else (unwireAll d).map some
           match implDec, charsOfBytes implText with
           | some implDec, some cs =>
-            let mDec := parse cs
+            let mDec := parseWith jq cs
             let pf := if implDec != some v then some s!"roundtrip fromjson(tojson(x))={d}" else none
             let agree := match mDec, implDec with
               | .ok m _, some i => m == i
@@ -203,6 +213,8 @@ def stepJson (dir input obs : String) : String :=
         | _ => "BADOP obs"
       | _ => "BADOP obs"
   | "dec" =>
+    -- from_jq on arbitrary programs is outside the model (gojq's full grammar)
+    if jq then "BADOP jqlit-dec-not-modelled" else
     match (bytesOfHex input).bind charsOfBytes with
     | none => "BADOP json-text"
     | some cs =>
@@ -226,7 +238,8 @@ def stepC14 (op obs : String) : String :=
   if (obs.splitOn "panic").length > 1 then "PROPFAIL go-panic" else
   match words op with
   | "radix" :: dir :: args => stepRadix dir args obs
-  | ["json", dir, input] => stepJson dir input obs
+  | ["json", dir, input] => stepJson false dir input obs
+  | ["jqlit", dir, input] => stepJson true dir input obs
   | [h, "hash", input] =>
     match hashFn h, parseBin input with
     | some f, some bits =>
